@@ -252,10 +252,30 @@ class World:
             check(same(before["all"], after["all"]), "refusal-changed-stored-data",
                   lambda: "%s was refused but get_all_data() changed" % what)
 
+        order = [0]
+
+        def ordered_views():
+            """The views are read in a different order every time (the object keeps a 'current flag' between reads):
+            natural order, reversed, and pathway views immediately followed by the view of their type."""
+            vs = served_views()
+            order[0] += 1
+            mode = order[0] % 3
+            if mode == 1:
+                return list(reversed(vs))
+            if mode == 2:
+                tags = [v for v in vs if v[0] == "tag"]
+                rest = [v for v in vs if v[0] not in ("tag", "type")]
+                out = []
+                for t in PTYPES:
+                    out += [v for v in tags if v[1] == t]
+                    out += [v for v in vs if v[0] == "type" and v[1] == t]
+                return out + rest
+            return vs
+
         def check_views(what):
             check(resp.storage_resolution == st["S"], "storage-resolution",
                   lambda: "after %s: storage_resolution %r, model %r" % (what, resp.storage_resolution, st["S"]))
-            for v in served_views():
+            for v in ordered_views():
                 exp, n = expected(v)
                 got = read_view(v)
                 if n == 0:
